@@ -213,6 +213,7 @@ def c11(rep, tier):
     r_cmp.run_delegation(p, rep)
     r_cmp.run_mirror(p, rep)
     r_cmp.run_cmp_orientation(p, rep)
+    r_cmp.run_no_identity(p, rep)
     r_cmp.run_contains(p, rep)
     r_cmp.run_value_symmetry(p, rep)
     r_cmp.run_orderins(p, rep, [r_cmp.CORE_FNS["value_eq"], r_cmp.CORE_FNS["value_cmp"]])
@@ -230,7 +231,9 @@ def c14(rep, tier):
     # the comparator sort is built on: scalar_eq / scalar_cmp agree pairwise and are mirror-symmetric (a non-decreasing result needs a consistent order)
     r_cmp.run_mirror(p, rep)
     r_cmp.run_cmp_orientation(p, rep)
+    r_unit.run_slice_window(p, rep)
     r_table.run_filter_ops(p, rep, only=["array::"])
+    r_table.run_missing_property(p, rep)
     r_table.run_state_use(p, rep, only=["WhereFilter"])
     rep.analysed["config:all"] = {"bodies": len(p.fns)}
 
@@ -240,6 +243,7 @@ def c15(rep, tier):
     r_arith.run(p, rep, scope=lambda fn: fn.id.startswith("liquid_lib::stdlib::filters::math::"))
     r_math.run(p, rep)
     r_math.run_coerce(p, rep)
+    r_math.run_round_cast(p, rep)
     r_table.run_filter_ops(p, rep, only=["math::"])
     rep.analysed["config:all"] = {"bodies": len(p.fns)}
 
@@ -356,6 +360,7 @@ def c13(rep, tier):
     p = P("all")
     r_unit.run(p, rep)
     r_unit.run_unit_mix(p, rep)
+    r_unit.run_slice_window(p, rep)
     r_unit.run_split_join(p, rep)
     r_unit.run_truncate_decision(p, rep)
     r_table.run_filter_ops(p, rep, only=["string::", "html::NewlineToBr", "slice::", "SizeFilter"])
